@@ -29,7 +29,20 @@ from fractions import Fraction
 
 import common
 from common import enc, dec, err_kind
-from props.c04 import val, tag, exact, Unparsed, _var, _fold, _is_const, _flat_sum, _mem_obj, _memory
+from props.c04 import val, tag, exact, Unparsed, _var, _is_const, _flat_sum, _mem_obj, _memory
+from props.c04 import _fold as _fold_c04
+
+
+def _fold(node):
+    """constant expression of the generated source -> exact rational.  C04's folder works over the
+    Gaussian rationals since round 3; the C06 model is over the rationals, so a constant with an
+    imaginary part is outside what this slice parses."""
+    g = _fold_c04(node)
+    if hasattr(g, "im"):
+        if g.im != 0:
+            raise Unparsed("complex constant in a time-varying filter loop")
+        return g.re
+    return g
 
 ID = "C06"
 RULE = ("random causal filter shapes (numerator order 0..4, denominator order 0..4) in which every coefficient is "
